@@ -203,7 +203,7 @@ func c10ExecCB(sc c10CB) (detail string, timing bool) {
 }
 
 func TestC10_Couchbase(t *testing.T) {
-	n := scale(24, 400)
+	n := scale(24, 2400)
 	_, nsh := shard()
 	var scs []c10CB
 	rapid.Check(t, func(rt *rapid.T) {
@@ -439,7 +439,7 @@ func c10ExecLeader(sc c10Leader) string {
 }
 
 func TestC10_Leader(t *testing.T) {
-	n := scale(120, 2000)
+	n := scale(120, 12000)
 	_, nsh := shard()
 	var scs []c10Leader
 	rapid.Check(t, func(rt *rapid.T) {
